@@ -95,11 +95,14 @@ type concurrentInst struct {
 var coldStarted = map[string]bool{}
 
 func (ci *concurrentInst) failTag(tag, msg string) {
-	ci.mu.Lock()
-	defer ci.mu.Unlock()
+	// (cold-start phases: nothing is judged, and the harness must not synchronise the
+	// goroutines either - a mutex taken here would order their accesses and hide a race;
+	// discard is set before the goroutines start and cleared after they are done)
 	if ci.discard {
 		return
 	}
+	ci.mu.Lock()
+	defer ci.mu.Unlock()
 	if ci.recordingRef {
 		ci.baseline[tag] = true
 		if os.Getenv("VERIF_DEBUG_C20") != "" {
@@ -195,43 +198,9 @@ func CheckC20(p *Pkg, e *Env, r *res.Result) {
 		return
 	}
 	silenceLogError(p)
-	// cold start, server side: before anything of this package has been called in this
-	// process, every operation receives its first requests from many goroutines at once
-	// (whatever the generated code initialises on first use is initialised under
-	// contention). Only the race detector judges this phase.
-	{
-		cold := newConcurrentInst(p)
-		cold.discard = true
-		var wg sync.WaitGroup
-		start := make(chan struct{})
-		for g := 0; g < 8; g++ {
-			wg.Add(1)
-			go func() {
-				defer wg.Done()
-				<-start
-				for _, op := range p.Ops {
-					func() {
-						defer func() { recover() }()
-						req := httptest.NewRequest(op.Method, "http://h.example"+escapeForURL(p.BasePath+concretePath(op.Template)), nil)
-						if cs := p.Doc.Components; cs != nil {
-							for _, sch := range cs.SecuritySchemes {
-								switch refmodel.SchemeKind(sch) {
-								case "bearer":
-									req.Header.Set("Authorization", "Bearer cold")
-								case "apikey-header":
-									req.Header.Set(sch.Name, "cold")
-								}
-							}
-						}
-						cold.h.ServeHTTP(httptest.NewRecorder(), req)
-					}()
-				}
-			}()
-		}
-		close(start)
-		wg.Wait()
-		r.Label("phase:cold-start-server-side")
-	}
+	// cold start, server side (see ColdStartC20); the other shards run it for this package too
+	ColdStartC20(p)
+	r.Label("phase:cold-start-server-side")
 	// link implementers sequentially (probing uses the ordinary recording Inst)
 	probe := NewInst(p)
 	probe.NoParse = true
@@ -685,3 +654,51 @@ func deepCopyValue(v reflect.Value) reflect.Value {
 	}
 	return out
 }
+
+// ColdStartC20: before anything of the package has been called in this process, every
+// operation receives its first requests from sixteen goroutines at once (whatever the
+// generated code initialises on first use is initialised under contention). Only the race
+// detector judges this phase. Whether two first calls really go unordered depends on the
+// scheduler, so every shard process runs it for every package (sixteen independent tries
+// per package and run), not only for the packages it goes on to check.
+func ColdStartC20(p *Pkg) {
+	if coldStartedServer[p.Name] || len(p.Ops) == 0 {
+		return
+	}
+	coldStartedServer[p.Name] = true
+	cold := newConcurrentInst(p)
+	cold.discard = true
+	var wg sync.WaitGroup
+	start := make(chan struct{})
+	for g := 0; g < 16; g++ {
+		wg.Add(1)
+		go func(g int) {
+			defer wg.Done()
+			<-start
+			// (every goroutine starts at another operation: the first calls - and whatever
+			// they initialise - are spread over the goroutines)
+			for k := range p.Ops {
+				op := p.Ops[(k+g)%len(p.Ops)]
+				func() {
+					defer func() { recover() }()
+					req := httptest.NewRequest(op.Method, "http://h.example"+escapeForURL(p.BasePath+concretePath(op.Template)), nil)
+					if cs := p.Doc.Components; cs != nil {
+						for _, sch := range cs.SecuritySchemes {
+							switch refmodel.SchemeKind(sch) {
+							case "bearer":
+								req.Header.Set("Authorization", "Bearer cold")
+							case "apikey-header":
+								req.Header.Set(sch.Name, "cold")
+							}
+						}
+					}
+					cold.h.ServeHTTP(httptest.NewRecorder(), req)
+				}()
+			}
+		}(g)
+	}
+	close(start)
+	wg.Wait()
+}
+
+var coldStartedServer = map[string]bool{}
